@@ -813,6 +813,11 @@ func (ts *TestScript) applyScriptUpdates() {
 	if len(ts.scriptUpdates) == 0 {
 		return
 	}
+	// Fatalf panics with failNow, which only runLine and setup catch;
+	// this function runs deferred, outside both.
+	defer catchFailNow(func() {
+		ts.t.FailNow()
+	})
 	for name, content := range ts.scriptUpdates {
 		found := false
 		for i := range ts.archive.Files {
